@@ -49,6 +49,16 @@ func (s *spy) Write(b []byte) (int, error) {
 
 type reqVal struct{ id string }
 
+func (r *reqVal) ID() string { return r.id }
+
+type ider interface{ ID() string }
+
+type appStore struct{ name string }
+
+func (a *appStore) Name() string { return a.name }
+
+type namer interface{ Name() string }
+
 // world is one fresh instance of a scenario: a fully set-up Flame and the per-thread plan.
 type world struct {
 	f        *flamego.Flame
@@ -243,13 +253,29 @@ var scenarios = []scenario{
 		return w
 	}},
 	{Name: "return-values+fast-path+renderer", Build: func(n int) *world {
-		paths := []string{"/tea", "/json", "/err", "/bytes"}
+		paths := []string{"/json", "/text", "/tea", "/bytes", "/err"}
 		w := newWorld(planFor(n, func(t int) []reqSpec { return []reqSpec{{"GET", paths[t%4], nil}} }))
 		w.f.Use(flamego.Renderer())
 		w.f.Get("/tea", func() (int, string) { sched.Point(); return 418, "teapot" })
 		w.f.Get("/json", func(r flamego.Render, c flamego.Context) { sched.Point(); w.own(c); r.JSON(201, map[string]int{"t": 1}) })
+		w.f.Get("/text", func(r flamego.Render, c flamego.Context) { sched.Point(); w.own(c); r.PlainText(203, "plain text") })
 		w.f.Get("/err", func() error { sched.Point(); return fmt.Errorf("failure") })
 		w.f.Get("/bytes", func(c flamego.Context) (int, []byte) { sched.Point(); w.own(c); return 202, []byte("raw") })
+		return w
+	}},
+	{Name: "app-service-consumed-through-interface", Build: func(n int) *world {
+		// a service mapped on the Flame by its concrete type and consumed through an interface it
+		// implements (resolved by scanning the shared application injector), plus a request-scoped
+		// value consumed the same way
+		w := newWorld(planFor(n, func(t int) []reqSpec { return []reqSpec{{"GET", fmt.Sprintf("/i/%d", t), nil}} }))
+		w.f.Map(&appStore{name: "app-store"})
+		w.f.Use(func(c flamego.Context) { sched.Point(); c.Map(&reqVal{id: "req-" + c.Param("k")}) })
+		w.f.Get("/i/{k}", func(c flamego.Context, st namer, rv ider) string {
+			sched.Point()
+			w.own(c)
+			w.note("store=%s reqval=%s", st.Name(), rv.ID())
+			return st.Name() + " " + rv.ID()
+		})
 		return w
 	}},
 	{Name: "two-requests-per-thread(warm-and-cold-caches)", Build: func(n int) *world {
